@@ -74,6 +74,15 @@ pub fn read_ncount(src: &[u8], max_log: u8, max_symbol: usize) -> Result<(NCount
 /// Serialise a normalized count (probabilities must sum to 2^log with -1 counting 1, and the
 /// last probability must be non-zero).
 pub fn write_ncount(nc: &NCount) -> Vec<u8> {
+    write_ncount_with(nc, 0)
+}
+
+/// `split` != 0: a legal but non-canonical serialisation - a run of zero probabilities may be
+/// written in several pieces (the repeat flag ends early, the next zero is spelled out as a
+/// probability of its own, with its own repeat flag). No known writer does this; every reader of
+/// the format has to accept it and arrive at the same distribution.
+pub fn write_ncount_with(nc: &NCount, split: u32) -> Vec<u8> {
+    let mut cut = super::synth::Rng(split as u64);
     let mut w = FwdWriter::new();
     w.write((nc.log - 5) as u64, 4);
     let mut remaining: i32 = 1 << nc.log;
@@ -100,6 +109,13 @@ pub fn write_ncount(nc: &NCount) -> Vec<u8> {
             while i < nc.probs.len() && nc.probs[i] == 0 {
                 zeros += 1;
                 i += 1;
+            }
+            if split != 0 && zeros > 0 && cut.below(3) > 0 {
+                // end the run after `take` of the following zeros; the rest is met again as a
+                // probability 0 by the loop
+                let take = cut.below(zeros as u64 + 1) as usize;
+                i -= zeros - take;
+                zeros = take;
             }
             let mut z = zeros;
             while z >= 3 {
